@@ -654,6 +654,10 @@ func TestC38(t *testing.T) {
 		if !r.Want(i) {
 			return
 		}
+		if i >= n && r.Violated() >= 300 && !r.Replaying() {
+			r.Event("scenarios_skipped_after_300_violations", 1)
+			return
+		}
 		var sc *scenario
 		switch {
 		case i < n:
@@ -855,6 +859,11 @@ func TestC38(t *testing.T) {
 		const rounds = 40
 		ncalls, late := 0, 0
 		for round := 0; round < rounds; round++ {
+			if r.Violated() >= 100 {
+				// the run is refuted many times over: blocked calls cost 3 s each, do not spend the watchdog on more of them
+				r.Event("slot_race_rounds_skipped_after_100_violations", rounds-round)
+				break
+			}
 			kk := 4 + rnd.Intn(5)
 			timeout := time.Duration(20+rnd.Intn(21)) * time.Millisecond
 			sr := runSlotRound(i, round, kk, timeout, srv)
